@@ -707,7 +707,10 @@ self.document_element(node)?
                         let to_remove = namespaces
                             .iter()
                             .filter_map(|(_, namespace_id)| {
-                                if fullname_serializer.is_namespace_known(*namespace_id)
+                                // an undeclaration (xmlns="") is never redundant because of
+                                // some other binding to the empty namespace
+                                if *namespace_id != self.no_namespace()
+                                    && fullname_serializer.is_namespace_known(*namespace_id)
                                     && deduplicate_tracker.is_safe_to_remove(*namespace_id)
                                 {
                                     Some(*namespace_id)
